@@ -98,7 +98,66 @@ def main():
                 bad += 1
                 print(f"FAIL wrong message {e!s} (wanted {frag!r}) for:", s.replace("\n", " ⏎ "))
     print(f"{'ok  ' if not bad else 'FAIL'} {len(REJECT)} out-of-subset sources rejected with file:line")
+    bad += typed_selftest()
     return 1 if bad else 0
+
+
+MINT_FNS = ["new", "Add::add", "Sub::sub", "Neg::neg", "Mul::mul", "pow", "inv", "Div::div"]
+TY = "pub struct S<const M: u32> {\n    v: u32,\n}\nimpl<const M: u32> S<M> {\n    pub fn f(&self, d: u64) -> Self {\n"
+TY_REJECT = [  # (body of `f`, fragment expected in the error) for tools/rs2lean_typed.py
+    ("        match d { _ => *self }\n", ":6: `match`"),
+    ("        let x = d as f64;\n        *self\n", ":6: type `f64`"),
+    ("        Self { v: self.v.pow(2) }\n", ":6: method `.pow()`"),
+    ("        Self { v: self.v + d }\n", ":6: type mismatch: u64 vs u32"),
+    ("        Self { v: 4294967296 }\n", ":6: literal 4294967296 does not fit `u32`"),
+    ("        let t = (self.v, d);\n        *self\n", ":6: tuples"),
+    ("        *self + *self\n", ":6: `impl Add for S` is not defined in this file"),
+    ("        Self::g(d)\n", ":6: a function `g` of `S` is not defined"),
+    ("        unsafe { *self }\n", ":6: `unsafe`"),
+    ("        let c = d == 0;\n        *self\n", ":6: boolean values"),
+    ("        self.f(d)\n", ":6: recursion"),
+]
+
+
+def typed_selftest():
+    import rs2lean_typed as T
+    bad = 0
+    mint = open("/repo/rlib/mint/src/lib.rs").read()
+    d0 = T.Translator(mint, "lib.rs").translate("Modular", MINT_FNS)
+    m2 = mint
+    for old, new in (("res", "acc"), ("rhs", "other"), ("k", "quot"), ("x", "xx"), ("y", "yy"), ("d", "expo")):
+        m2 = re.sub(rf"\b{old}\b", new, m2)
+    m2 = m2.replace("const M: u32", "const MODULUS: u32").replace("<M>", "<MODULUS>")
+    m2 = re.sub(r"\bM\b", "MODULUS", m2).replace("pub fn inv", "// inverse\n    /* by extended /* Euclid */ */\n    pub   fn   inv")
+    d1 = T.Translator(m2, "lib.rs").translate("Modular", MINT_FNS)
+    if d0 != d1 or m2 == mint:
+        bad += 1
+        print("FAIL typed: renaming changes the generated text")
+    else:
+        print("ok   typed: mint with variables and the const generic renamed + comments: identical text")
+    rnd = open("/repo/rlib/rand/src/randomable.rs").read()
+    r0 = T.MacroTranslator(rnd, "r.rs", "make_randomable").translate_all(["gen_from_u64"])
+    r2 = rnd.replace("$it", "$s").replace("$ut", "$u").replace("$t", "$e")
+    r2 = re.sub(r"\blen\b", "span", re.sub(r"\brng\b", "word", r2))
+    if r0 != T.MacroTranslator(r2, "r.rs", "make_randomable").translate_all(["gen_from_u64"]) or r2 == rnd:
+        bad += 1
+        print("FAIL typed: renaming macro parameters changes the generated text")
+    else:
+        print("ok   typed: randomable.rs with macro parameters and variables renamed: identical text")
+    n = 0
+    for body, frag in TY_REJECT:
+        src = TY + body + "    }\n}\n"
+        try:
+            T.Translator(src, "t.rs").translate("S", ["f"])
+            bad += 1
+            print("FAIL typed accepted:", body.strip())
+        except T.TranslateError as e:
+            n += 1
+            if frag not in str(e):
+                bad += 1
+                print(f"FAIL typed: wrong message {e!s} (wanted {frag!r})")
+    print(f"{'ok  ' if n == len(TY_REJECT) else 'FAIL'} typed: {n} out-of-subset sources rejected with file:line")
+    return bad
 
 
 if __name__ == "__main__":
